@@ -28,7 +28,7 @@ ASSUMPTIONS = ["Redis and RabbitMQ are wire-level fakes speaking the real protoc
                "argument payloads starting with the reserved bucket marker are excluded (per the statement)",
                "inputs a broker refuses loudly at enqueue are counted under refused_inputs, not judged"]
 EVAL_COUNTER = "items_judged"
-REQUIRED = ["items_judged", "jobs_roundtripped", "bucket_transport", "codec_roundtrips", "keys_checked", "durations_over_10y", "reused_bucket_ids"]
+REQUIRED = ["items_judged", "jobs_roundtripped", "bucket_transport", "codec_roundtrips", "keys_checked", "durations_over_10y", "reused_bucket_ids", "slow_argument_store_runs"]
 CASE_TIMEOUT = 150
 
 NAME_FIRST = string.ascii_letters + "_"
@@ -49,7 +49,7 @@ def gen_cases(tier, seed):
         cases.append({"type": "keys", "seed": rnd.randrange(10**6), "n": 400})
     cases.append({"type": "collide", "seed": 1})
     for i in range({"quick": 6, "thorough": 60}[tier]):
-        cases.append({"type": "reuse", "kind": ["mem", "redis", "rabbit"][i % 3], "seed": rnd.randrange(10**6)})
+        cases.append({"type": "reuse", "kind": ["mem", "redis", "rabbit"][i % 3], "seed": rnd.randrange(10**6), "slow": i % 2 == 0})
     return cases
 
 
@@ -407,6 +407,19 @@ async def reuse_case(loop, case, out, stats, fps):
     rnd = random.Random(case["seed"])
     w = World(loop, kind, converter="basic", seed=case["seed"], latency=None if kind == "mem" else 0.001)
     try:
+        slow = case.get("slow", case["seed"] % 2 == 0)
+        if slow:
+            # a slow argument store (another server, another network path): the message must not be visible before
+            # its arguments are stored (delay injected between the middleware wrapper and the broker method)
+            mw = w.conn.args_bucket_broker.store_bucket
+            orig_fn = mw.fn
+
+            async def slow_store(*a, **kw):
+                await asyncio.sleep(0.35)
+                return await orig_fn(*a, **kw)
+
+            mw.fn = slow_store
+            stats["slow_argument_store_runs"] += 1
         await w.open()
         r = w.router()
         seen = []
